@@ -590,6 +590,45 @@ impl Schedule {
             { network.sp_trip(node).seated as int - fseats(train_formation.formation@) } else { 0 }), // @obl C02.unserved_passengers.max0_seated_minus_seats
 //@end
 
+// ---- C07: what the number of vehicles in a formation means for the passengers of the segment ------------
+/// a formation whose vehicles all have the passenger capacity `cap` and `seats` seats (a segment is served by
+/// vehicles of one type only: C01 type guard)
+pub open spec fn homogeneous(f: Seq<Vehicle>, cap: int, seats: int) -> bool {
+    forall|i: int| 0 <= i < f.len() ==> (#[trigger] f[i]).vehicle_type.capacity as int == cap && f[i].vehicle_type.seats as int == seats
+}
+/// the capacity of k equal vehicles is k times one vehicle's
+pub proof fn lemma_homogeneous_capacity(f: Seq<Vehicle>, cap: int, seats: int)
+    requires homogeneous(f, cap, seats),
+    ensures fcap(f) == f.len() * cap, fseats(f) == f.len() * seats,
+{
+    let a = f.map_values(|v: Vehicle| v.vehicle_type.capacity as int);
+    let b = f.map_values(|v: Vehicle| v.vehicle_type.seats as int);
+    assert forall|i: int| 0 <= i < a.len() implies cap <= #[trigger] a[i] <= cap by { assert(f[i].vehicle_type.capacity as int == cap); }
+    assert forall|i: int| 0 <= i < b.len() implies seats <= #[trigger] b[i] <= seats by { assert(f[i].vehicle_type.seats as int == seats); }
+    lemma_isum_bounds(a, cap, cap);
+    lemma_isum_bounds(b, seats, seats);
+    assert(cap * a.len() == f.len() * cap) by (nonlinear_arith) requires a.len() == f.len();
+    assert(seats * b.len() == f.len() * seats) by (nonlinear_arith) requires b.len() == f.len();
+}
+/// C07: "every departure segment is served by enough vehicles for its passengers and seated passengers": a
+/// formation of at least `required` vehicles (required as in number_of_vehicles_required_to_serve: the
+/// lower bound the flow stage puts on the trip) leaves nobody behind -- compute_unserved_passengers_at_node
+/// then returns (0, 0) -- and a formation capped at `k < required` vehicles leaves exactly the shortfall
+pub proof fn lemma_required_vehicles_serve_the_demand(f: Seq<Vehicle>, cap: int, seats: int, required: int, passengers: int, seated: int)
+    requires
+        homogeneous(f, cap, seats), cap >= 0, seats >= 0, required >= 0,
+        required * cap >= passengers, required * seats >= seated,
+    ensures
+        f.len() >= required ==> fcap(f) >= passengers && fseats(f) >= seated, // @obl C07.coverage.required_vehicles_leave_nobody_behind
+        fcap(f) == f.len() * cap && fseats(f) == f.len() * seats, // @obl C07.coverage.capped_formation_leaves_exactly_the_shortfall
+{
+    lemma_homogeneous_capacity(f, cap, seats);
+    if f.len() >= required {
+        assert(f.len() * cap >= required * cap) by (nonlinear_arith) requires f.len() >= required, cap >= 0;
+        assert(f.len() * seats >= required * seats) by (nonlinear_arith) requires f.len() >= required, seats >= 0;
+    }
+}
+
 } // mod tr
 } // verus!
 fn main() {}
